@@ -251,6 +251,17 @@ DENSE_BUDGET = [60]   # dense local searches per run (each costs seconds of exac
 def confirm_region(sets, band_edges, r2, pred, q, search=True):
     """independent confirmation: find a point farther than sqrt(r2) from every band
     edge where pred(list of winding numbers) is False.  Returns dict or None."""
+    def finish(hit):
+        # does the wrong region clear the band only marginally (by less than 10% of its radius)?  then every
+        # failing point found lies within 1.1 r of a band edge: recorded as 'marginal_only' for classification
+        if hit and hit.get('min_dist2_to_band') is not None and F(hit['min_dist2_to_band']) <= F(r2) * F(121, 100):
+            deeper = _confirm(sets, band_edges, F(r2) * F(121, 100), pred, q, search)
+            hit['marginal_only'] = deeper is None
+        return hit
+    return finish(_confirm(sets, band_edges, r2, pred, q, search))
+
+
+def _confirm(sets, band_edges, r2, pred, q, search):
     def scan(cands):
         for c in cands:
             d2 = geom.min_dist2(band_edges, c)
